@@ -67,6 +67,13 @@ struct Scenario {
     millis: u64,
     #[serde(default)]
     block: u16,
+    /// db_stress: point type 0 coil, 1 discrete input, 2 holding register, 3 input register (default: by block size)
+    #[serde(default = "no_pt")]
+    pt: u8,
+}
+
+fn no_pt() -> u8 {
+    255
 }
 
 fn free_port() -> u16 {
@@ -566,16 +573,18 @@ struct StressCtx {
     value: u16,
     block: u16,
     coils: bool,
+    pt: u8,
 }
 extern "C" fn stress_init(db: *mut rodbus_ffi::Database, ctx: *mut c_void) {
     let c = unsafe { &*(ctx as *const StressCtx) };
     unsafe {
         for i in 0..c.block {
-            if c.coils {
-                ffi::rodbus_database_add_coil(db, i, false);
-            } else {
-                ffi::rodbus_database_add_holding_register(db, i, 0);
-            }
+            match c.pt {
+                0 => ffi::rodbus_database_add_coil(db, i, false),
+                1 => ffi::rodbus_database_add_discrete_input(db, i, false),
+                2 => ffi::rodbus_database_add_holding_register(db, i, 0),
+                _ => ffi::rodbus_database_add_input_register(db, i, 0),
+            };
         }
     }
 }
@@ -583,11 +592,12 @@ extern "C" fn stress_txn(db: *mut rodbus_ffi::Database, ctx: *mut c_void) {
     let c = unsafe { &*(ctx as *const StressCtx) };
     unsafe {
         for i in 0..c.block {
-            if c.coils {
-                ffi::rodbus_database_update_coil(db, i, c.value % 2 == 1);
-            } else {
-                ffi::rodbus_database_update_holding_register(db, i, c.value);
-            }
+            match c.pt {
+                0 => ffi::rodbus_database_update_coil(db, i, c.value % 2 == 1),
+                1 => ffi::rodbus_database_update_discrete_input(db, i, c.value % 2 == 1),
+                2 => ffi::rodbus_database_update_holding_register(db, i, c.value),
+                _ => ffi::rodbus_database_update_input_register(db, i, c.value),
+            };
         }
     }
 }
@@ -596,9 +606,10 @@ fn db_stress(sc: &Scenario, sink: &Sink) {
     unsafe {
         let rt = runtime();
         let port = free_port();
-        let coils = sc.block > 125;
+        let pt = if sc.pt == 255 { if sc.block > 125 { 0 } else { 2 } } else { sc.pt };
+        let coils = pt < 2;
         let handler = ffi::WriteHandler { write_single_coil: None, write_single_register: None, write_multiple_coils: None, write_multiple_registers: None, on_destroy: None, ctx: std::ptr::null_mut() };
-        let ictx = Box::leak(Box::new(StressCtx { value: 0, block: sc.block, coils }));
+        let ictx = Box::leak(Box::new(StressCtx { value: 0, block: sc.block, coils, pt }));
         let cfg = ffi::DatabaseCallback { callback: Some(stress_init), on_destroy: None, ctx: ictx as *mut StressCtx as *mut c_void };
         let server = start_server(port, handler, cfg, rt);
         let stop = Arc::new(AtomicBool::new(false));
@@ -613,7 +624,7 @@ fn db_stress(sc: &Scenario, sink: &Sink) {
                 let mut v = w as u16;
                 while !stop.load(Ordering::SeqCst) {
                     v = v.wrapping_add(7);
-                    let ctx = Box::new(StressCtx { value: v, block, coils });
+                    let ctx = Box::new(StressCtx { value: v, block, coils, pt });
                     let p = Box::into_raw(ctx);
                     let cb = ffi::DatabaseCallback { callback: Some(stress_txn), on_destroy: None, ctx: p as *mut c_void };
                     ffi::rodbus_server_update_database(server_addr as *mut rodbus_ffi::Server, 1, cb);
@@ -633,7 +644,7 @@ fn db_stress(sc: &Scenario, sink: &Sink) {
                 let mut tx = 0u16;
                 while !stop.load(Ordering::SeqCst) {
                     tx = tx.wrapping_add(1);
-                    let pdu = vec![if coils { 1 } else { 3 }, 0, 0, (block >> 8) as u8, block as u8];
+                    let pdu = vec![[1u8, 2, 3, 4][pt as usize], 0, 0, (block >> 8) as u8, block as u8];
                     if s.write_all(&mbap(tx, 1, &pdu)).is_err() {
                         break;
                     }
@@ -664,7 +675,7 @@ fn db_stress(sc: &Scenario, sink: &Sink) {
             let _ = t.join();
         }
         let g = results.lock().unwrap();
-        sink.emit(json!({"e":"db_stress","block":sc.block,"coils":coils,"writers":sc.writers,"readers":sc.readers,
+        sink.emit(json!({"e":"db_stress","block":sc.block,"coils":coils,"pt":pt,"writers":sc.writers,"readers":sc.readers,
             "transactions":txns.load(Ordering::SeqCst),"reads":g.0,"torn":g.1,
             "samples":g.2.iter().map(|x| bytes_json(x)).collect::<Vec<_>>()}));
         drop(g);
